@@ -11,8 +11,14 @@ from simcore.seeds import stream
 FAMILIES = ["ConstantValue", "FunctionLinear", "FunctionMultilinear", "FunctionPolynomial", "Polynomial1d", "GenzCornerPeak",
             "GenzProductPeak", "GenzOszillatory", "GenzDiscontinious", "GenzDiscontinious2", "GenzC0", "GenzGaussian",
             "FunctionExpVar", "FunctionG", "FunctionDiagonalDiscont", "FunctionShift", "FunctionCompose", "FunctionConcatenate",
-            "FunctionPower", "CustomFunction", "FunctionCustom", "LambdaFunction"]
-NO_INTEGRAL = {"FunctionConcatenate", "FunctionPower", "CustomFunction", "FunctionCustom"}
+            "FunctionPower", "CustomFunction", "FunctionCustom", "LambdaFunction",
+            # driven for the evaluation / cache clauses only (their analytic integrals are numerical quadrature themselves, not
+            # implemented, or marked incorrect by the source)
+            "FunctionUQ", "FunctionUQShifted", "FunctionUQ2", "FunctionGShifted", "FunctionCantileverBeamD", "FunctionGeneralizedNormal",
+            "FunctionUQNormal", "FunctionUQNormal2", "FunctionUQWeighted", "FunctionInverseTransform"]
+EVAL_ONLY = {"FunctionUQ", "FunctionUQShifted", "FunctionUQ2", "FunctionGShifted", "FunctionCantileverBeamD", "FunctionGeneralizedNormal",
+             "FunctionUQNormal", "FunctionUQNormal2", "FunctionUQWeighted", "FunctionInverseTransform"}
+NO_INTEGRAL = {"FunctionConcatenate", "FunctionPower", "CustomFunction", "FunctionCustom"} | EVAL_ONLY
 
 
 def rc(r, lo, hi, nd=2):
@@ -22,6 +28,24 @@ def rc(r, lo, hi, nd=2):
 def gen_spec(r, fam=None, depth=0):
     fam = fam or r.choice(FAMILIES)
     dim = 1 if fam == "Polynomial1d" else r.choice([1, 2, 2, 3, 3, 4])
+    if fam in ("FunctionUQ", "FunctionUQShifted", "FunctionCantileverBeamD"):
+        return [fam, 3, {}]
+    if fam == "FunctionUQ2":
+        return [fam, 2, {}]
+    if fam == "FunctionGShifted":
+        return [fam, dim, {"dim": dim}]
+    if fam == "FunctionGeneralizedNormal":
+        return [fam, dim, {"midpoints": [rc(r, 0.0, 1.0) for _ in range(dim)], "coefficients": [rc(r, 0.3, 3) for _ in range(dim)], "exp": r.choice([1, 3])}]
+    if fam in ("FunctionUQNormal", "FunctionUQNormal2", "FunctionUQWeighted", "FunctionInverseTransform"):
+        # FunctionInverseTransform forwards the wrapped function's output length; the three UQ wrappers are scalar by design
+        inner = gen_spec(r, r.choice(["FunctionPolynomial", "GenzOszillatory", "GenzGaussian", "FunctionLinear", "GenzC0"] +
+                                     (["GenzDiscontinious2"] * 2 if fam == "FunctionInverseTransform" else [])))
+        d = inner[1]
+        p = {"inner": inner, "mean": [rc(r, -0.5, 0.5) for _ in range(d)], "std": [rc(r, 0.3, 1.5) for _ in range(d)]}
+        if fam == "FunctionUQWeighted":
+            p["weight"] = gen_spec(r, "GenzGaussian")
+            p["weight"] = _with_dim(r, p["weight"], d)
+        return [fam, d, p]
     if fam == "ConstantValue":
         return [fam, dim, {"value": rc(r, -3, 3)}]
     if fam in ("FunctionLinear", "FunctionMultilinear"):
@@ -114,6 +138,19 @@ def build(spec):
         return F.FunctionDiagonalDiscont()
     if fam == "FunctionG":
         return F.FunctionG(p["dim"])
+    if fam in ("FunctionUQ", "FunctionUQShifted", "FunctionUQ2", "FunctionCantileverBeamD"):
+        return getattr(F, fam)()
+    if fam == "FunctionGShifted":
+        return F.FunctionGShifted(p["dim"])
+    if fam == "FunctionGeneralizedNormal":
+        return F.FunctionGeneralizedNormal(list(p["midpoints"]), list(p["coefficients"]), p["exp"])
+    if fam in ("FunctionUQNormal", "FunctionUQNormal2"):
+        return getattr(F, fam)(build(p["inner"]), list(p["mean"]), list(p["std"]), [-2.0] * dim, [2.0] * dim)
+    if fam == "FunctionUQWeighted":
+        return F.FunctionUQWeighted(build(p["inner"]), build(p["weight"]))
+    if fam == "FunctionInverseTransform":
+        import scipy.stats as st
+        return F.FunctionInverseTransform(build(p["inner"]), [st.norm(loc=m, scale=sd) for m, sd in zip(p["mean"], p["std"])])
     if fam == "FunctionShift":
         sh = list(p["shift"])
         return F.FunctionShift(build(p["inner"]), lambda c, sh=sh: [c[d] + sh[d] for d in range(len(sh))])
@@ -146,6 +183,10 @@ def out_len(spec):
         return sum(out_len(s) for s in p["parts"])
     if fam == "FunctionPower":
         return out_len(p["inner"])
+    if fam in ("FunctionUQNormal", "FunctionUQNormal2", "FunctionInverseTransform"):
+        return out_len(p["inner"])
+    if fam == "FunctionCantileverBeamD":
+        return 2
     if fam == "CustomFunction":
         return p["n"]
     if fam == "FunctionCustom":
@@ -156,8 +197,14 @@ def out_len(spec):
 def domain(spec):
     """box in which the family is defined / its analytic integral is valid"""
     fam, dim, p = spec
-    if fam in ("FunctionG", "FunctionDiagonalDiscont"):
+    if fam in ("FunctionG", "FunctionDiagonalDiscont", "FunctionGShifted"):
         return [0.0] * dim, [1.0] * dim, True        # integral only on the unit cube
+    if fam == "FunctionCantileverBeamD":
+        return [0.5] * dim, [3.0] * dim, False       # physical parameters: positive
+    if fam == "FunctionInverseTransform":
+        return [0.05] * dim, [0.95] * dim, False     # quantiles strictly inside (0, 1)
+    if fam in ("FunctionUQNormal", "FunctionUQNormal2", "FunctionUQWeighted"):
+        return [0.0] * dim, [1.0] * dim, False
     if fam in ("FunctionExpVar", "GenzCornerPeak"):
         return [0.0] * dim, [1.5] * dim, False
     if fam == "FunctionShift":
